@@ -24,6 +24,9 @@ type SNode struct {
 	Names []string // SRef: type names incl. '@'
 	Rules []SRule
 	Note  string // annotation note text ("" = none)
+	// NoteDetached: the printer wrote the note on a line on which no value starts, so it belongs to
+	// no node (set by gen.PrintSchema)
+	NoteDetached bool
 
 	// filled by the printer
 	Begin    int // offset of the first byte of the example value
